@@ -1,6 +1,15 @@
 # ./check configuration for C15 (merged by mc/props.py)
 PROP = dict(
-        pkg=".", test="TestVerifC15", files=["mc/c15/*.go"], libs=["explore", "canon"],
+        libs=["explore", "canon"], crash_is_violation=True,
+        targets=[
+            dict(name="e1", pkg=".", test="TestVerifC15", files=["mc/c15/*.go"]),
+            dict(name="e3", pkg=".", test="TestVerifC15E3", files=["mc/c15/e3/*.go"], parts=["e3-interleavings"],
+                 libs=["explore", "canon", "sched"]),
+            dict(name="e3lp", pkg=".", test="TestVerifC15E3LP", files=["mc/c15/e3/*.go", "mc/c15/e3/lp/*.go"], parts=["e3-lockpoints"],
+                 libs=["explore", "canon", "sched", "vsync"],
+                 rewrite={f: [('"sync"', 'sync "github.com/refraction-networking/uquic/internal/verifmc/vsync"')]
+                          for f in ("streams_map.go", "streams_map_incoming.go", "streams_map_outgoing.go")}),
+        ],
         level="model_checking", shards=1,
         level_text="Explicit-state model checking of the real streamsMap (both perspectives, real Stream/SendStream/ReceiveStream objects, real flow controllers; the control-frame queue and the streamSender are recorders, the recorder's onStreamCompleted calls DeleteStream exactly like connection.go) against a counting reference model of the stream-id ledger: BFS with canonical-state merging over peer frames / local calls / completions (parts direct-* run to closure, the others to a depth bound), plus an exhaustive enumeration of all operation sequences of a fixed length with blocking OpenStreamSync callers inside testing/synctest bubbles, run to quiescence after every operation (parts sync-*). Every transition is executed on the real code, so there is no model/code gap. Right level because the property quantifies over all interleavings of peer frames, local calls and completions, which is a finite space for small limits and a bounded id universe.",
         level_note="Trusted: the reference model in mc/c15 (id arithmetic taken from the RFC 9000 2.1 bit layout, a per-stream completion model of the two halves, a FIFO queue of waiting callers), the reflective canonicaliser (only the harness-owned recording sender, the never-updated RTT statistics and the logger are skipped), the bounded id universe (stream numbers up to limit+2 .. limit+10) and the depth bounds of the parts that do not close. Sequential (E1) coverage only: blocking OpenStreamSync callers are explored at quiescence granularity; interleavings inside one operation (lock-point preemption, e.g. a cancellation racing with arriving credit) are NOT explored - that is the later E3 part.",
